@@ -3,6 +3,7 @@ from __future__ import annotations
 
 import json
 
+from tools import c04_collect as CO
 from tools import c04_gen as G
 from tools import c04_loop as L
 from tools import fw
@@ -21,6 +22,10 @@ LEVEL_TEXT = (
     "n entries, arbitrary nesting/overlap of targets; identical data when targets are disjoint or nested); folding the "
     "pieces of any well-formed cut of a reference tree (deferred fragments and stream batches nested to any depth) into "
     "the initial data never fails and gives exactly the reference (assemble_eq_reference), in every order. "
+    "Collect: collect_fields / collect_subfields with live @defer (tri-state visited-fragment map) yield the same response "
+    "keys and per key the same set of field nodes as with @defer disabled (collect_defer_same_keys), and collect + plan read "
+    "as a cut of one object is well formed, reassembles, and has exactly the non-incremental response keys once each "
+    "(collect_plan_cut). "
     "End-to-end: every payload stream produced by experimental_execute_incrementally under a controlled event loop "
     "(all completion orders of the harness futures up to the cap x consumer pull timing x early execution on/off) is "
     "folded by the Lean Assemble.apply and decided by the Lean clauses Spec.exact / Spec.approx against the Python "
@@ -29,14 +34,18 @@ LEVEL_TEXT = (
 LEVEL_NOTE = (
     "Trusted: Lean kernel; the hand-written plan model (tied to build_execution_plan by direct correspondence on "
     "generated FieldDetails/DeferUsage objects); the harness (event loop control, data realisation, reference run). "
-    "The incremental executor and collect_fields with live defer usages are not modelled operationally: that the "
-    "emitted pieces are a cut of the reference (theorem 3's hypothesis) is what the end-to-end oracle observes on "
-    "every explored run; collect_defer_same_keys is therefore not stated."
+    "collect_fields is modelled on unfolded selection trees of documents without fragment cycles (fragment variables out "
+    "of scope) and tied by direct correspondence. The incremental executor itself (the recursion into field values, "
+    "`sub k` in collect_plan_cut) is not modelled operationally: that the emitted pieces are a cut of the reference is what "
+    "the end-to-end oracle observes on every explored run."
 )
 TECHNIQUE = "Lean 4 theorems + correspondence (plan) + Lean spec oracle on implementation runs under schedule control"
 TRUSTED = [
     "hand-written Lean model Gql/Async/Plan.lean of build_execution_plan/get_filtered_defer_usage_set, tied to the "
     "code by calling the Python function on generated FieldDetails/DeferUsage objects",
+    "hand-written Lean model Gql/Async/CollectDefer.lean of collect_fields/collect_subfields, tied to the code by calling "
+    "the Python functions on generated documents (tools/c04_collect.py evaluates @skip/@include/@defer(if)/type conditions "
+    "and unfolds fragments for the model)",
     "Gql/Async/Assemble.lean is a specification of the delivery format's merge and of the property's two clauses "
     "(Spec.exact, Spec.approx), run through the driver on what the implementation emits",
     "tools/c04_loop.py: harness futures / async generators, quiescence detection via loop._ready",
@@ -51,8 +60,8 @@ ASSUMPTIONS = [
 ]
 EXPLANATION = (
     "Theorems: plan_partition, plan_parts_characterised, filtered_set_spec, assemble_order_independent (+ exact "
-    "refinements), apply_never_overwrites, assemble_eq_reference(_any_order). Oracle: Lean Assemble.apply + Spec "
-    "clauses on every payload stream of every explored schedule; plan model vs build_execution_plan."
+    "refinements), apply_never_overwrites, assemble_eq_reference(_any_order), collect_defer_same_keys, collect_plan_cut. Oracle: Lean Assemble.apply + Spec "
+    "clauses on every payload stream of every explored schedule; plan model vs build_execution_plan; collect model vs collect_fields/collect_subfields."
 )
 
 CAP_QUICK = 24
@@ -367,6 +376,37 @@ def _plan_work(args):
     return rep
 
 
+# ----------------------------------------------------------------------------- collect_fields correspondence
+
+
+def _collect_work(args):
+    texts, drv = args
+    fw.use_repo()
+    rep = Report()
+    driver = fw.Driver(drv) if drv else None
+    items = []
+    for text in texts:
+        try:
+            its = CO.run_doc(text)
+        except Exception as e:  # noqa: BLE001
+            rep.failures.append(Failure("collect_fields-raises", "collect_fields raises on a generated selection set", {"collect_doc": text}, type(e).__name__, "a grouped field set", "C04-4"))
+            continue
+        items += [(text, it) for it in its]
+        if "@defer" in text:
+            rep.nontrivial += 1
+    outs = driver.run([it[0] for _, it in items]) if driver else [None] * len(items)
+    for (text, (line, impl, prop_ok, what)), out in zip(items, outs):
+        rep.evaluations += 1
+        rep.stats["collect_calls_" + what.split("[")[0]] = rep.stats.get("collect_calls_" + what.split("[")[0], 0) + 1
+        if prop_ok is False:
+            rep.failures.append(
+                Failure("collect-defer-keys-differ", "collect_fields with live @defer yields other response keys / field nodes than with @defer removed", {"collect_doc": text}, impl, "same keys, per key the same set of field nodes", "C04-4 collect_defer_same_keys")
+            )
+        if out is not None and out != impl:
+            rep.disagreements.append(Disagreement(what.split("[")[0], {"collect_doc": text, "call": what}, impl, out))
+    return rep
+
+
 # ----------------------------------------------------------------------------- corpus
 
 CORPUS = [
@@ -456,6 +496,13 @@ def explore(ctx) -> Report:
     plan_rep = Report()
     for r in preps:
         plan_rep.merge(r)
+    # collect_fields / collect_subfields correspondence
+    crng = ctx.sub_rng("c04-collect")
+    texts = [CO.gen_doc(crng) for _ in range(1000 if quick else 30000)]
+    creps = fw.pmap(_collect_work, [(c, drv) for c in fw.chunked(texts, fw.WORKERS)])
+    for r in creps:
+        rep.merge(r)
+    rep.stats["collect_docs"] = len(texts)
     rep.stats["plan_cases"] = plan_rep.evaluations
     rep.stats["plan_nontrivial"] = plan_rep.nontrivial
     rep.evaluations += plan_rep.evaluations
@@ -467,7 +514,9 @@ def explore(ctx) -> Report:
         f"consumer in {{eager, lazy}} x all completion orders of the harness handles (DFS, cap {cap} per combination) + 2 "
         "random interleavings with random pull timing; non-trivial = the run produced an initial result with pending "
         "entries and subsequent payloads (cases answered by a single response are counted separately); plus "
-        f"{plan_rep.evaluations} generated grouped field sets for build_execution_plan (non-trivial: >= 2 keys and a deferred field)"
+        f"{plan_rep.evaluations} generated grouped field sets for build_execution_plan (non-trivial: >= 2 keys and a deferred field); plus "
+        f"{len(texts)} generated documents (nested / labelled / if:false defers, @skip/@include, matching and non-matching type conditions, "
+        "fragments spread several times deferred and not, missing fragments) for collect_fields and one level of collect_subfields"
     )
     return rep
 
@@ -483,6 +532,8 @@ def replay(ctx, payload) -> Report:
     fw.use_repo()
     inp = payload["input"]
     drv = DRIVER if ctx.driver else None
+    if "collect_doc" in inp:
+        return _collect_work(([inp["collect_doc"]], drv))
     if "plan" in inp:
         p = inp["plan"]
         return _plan_work(([(p["parents"], p["parent_set"], [tuple(g) for g in p["groups"]])], drv))
